@@ -84,7 +84,62 @@ func fnKey(fn *ir.Function) string {
 	if r := sig.Recv(); r != nil {
 		b.WriteString(" recv " + types.TypeString(r.Type(), nil))
 	}
+	for _, ta := range fn.TypeArgs() {
+		if hasTypeParam(ta, 0) {
+			// instantiated with a type parameter of the enclosing generic
+			// function: distinct enclosing functions give distinct instances
+			// that print alike
+			b.WriteString(" (parameterized)")
+			break
+		}
+	}
 	return b.String()
+}
+
+func hasTypeParam(t types.Type, depth int) bool {
+	if depth > 8 {
+		return false
+	}
+	switch t := types.Unalias(t).(type) {
+	case *types.TypeParam:
+		return true
+	case *types.Named:
+		if ta := t.TypeArgs(); ta != nil {
+			for i := 0; i < ta.Len(); i++ {
+				if hasTypeParam(ta.At(i), depth+1) {
+					return true
+				}
+			}
+		}
+	case *types.Pointer:
+		return hasTypeParam(t.Elem(), depth+1)
+	case *types.Slice:
+		return hasTypeParam(t.Elem(), depth+1)
+	case *types.Array:
+		return hasTypeParam(t.Elem(), depth+1)
+	case *types.Chan:
+		return hasTypeParam(t.Elem(), depth+1)
+	case *types.Map:
+		return hasTypeParam(t.Key(), depth+1) || hasTypeParam(t.Elem(), depth+1)
+	case *types.Signature:
+		for i := 0; i < t.Params().Len(); i++ {
+			if hasTypeParam(t.Params().At(i).Type(), depth+1) {
+				return true
+			}
+		}
+		for i := 0; i < t.Results().Len(); i++ {
+			if hasTypeParam(t.Results().At(i).Type(), depth+1) {
+				return true
+			}
+		}
+	case *types.Struct:
+		for i := 0; i < t.NumFields(); i++ {
+			if hasTypeParam(t.Field(i).Type(), depth+1) {
+				return true
+			}
+		}
+	}
+	return false
 }
 
 // paramNorm renames the function's parameters (as named by its Signature
@@ -170,7 +225,7 @@ func dumpAll(prog *ir.Program) map[string][]string {
 // are created per use site in this code base and are not subject to it.)
 func duplicates(dumps map[string][]string) (class, detail string) {
 	for _, k := range sortedKeys(dumps) {
-		if len(dumps[k]) > 1 && (strings.Contains(k, " | instance of ") || strings.Contains(k, " | instantiation wrapper of ")) {
+		if len(dumps[k]) > 1 && !strings.HasSuffix(k, " (parameterized)") && (strings.Contains(k, " | instance of ") || strings.Contains(k, " | instantiation wrapper of ")) {
 			return "function-created-more-than-once", fmt.Sprintf("%s exists %d times as distinct functions", k, len(dumps[k]))
 		}
 	}
@@ -548,10 +603,22 @@ func execute(c Case, tapes *[][]uint32) batch.Result {
 			} else if cl, d := diffDumps(ref, got); cl != "" {
 				r.fail(cl, "%s", d)
 			} else {
-				// idempotence: building again changes nothing
-				prog.Build()
-				for _, p := range pkgs {
-					p.Build()
+				// idempotence: building again changes nothing. This runs in a
+				// simulation of its own: Program.Build starts goroutines that
+				// outlive it (they release their cpuLimit token after
+				// wg.Done), and a goroutine of pass-through code that is still
+				// running when the next simulation starts would enter the
+				// kernel as if it were the running task.
+				ivr := verifsim.Run(verifsim.Config{Strategy: verifsim.StratFIFO, StepBound: 2_000_000}, func() {
+					prog.Build()
+					for _, p := range pkgs {
+						p.Build()
+					}
+					verifsim.Quiesce()
+				})
+				ir.VerifSetCPULimit(c.CPULimit)
+				if len(ivr.Panics) > 0 || ivr.Deadlock != "" || ivr.StepBound {
+					r.fail("build-not-idempotent", "calling Build again panicked or did not finish: %v %s", ivr.Panics, ivr.Deadlock)
 				}
 				again := dumpAll(prog)
 				if cl, d := diffDumps(got, again); cl != "" {
